@@ -60,7 +60,7 @@ CHECKS = {
                      'to-host inverts from-host, and the two preprocessor branches are mirror images.', ref='4.13'),
     'C14': dict(cat='proof', tech='all C01/C02/C04/C06/C09 obligations re-evaluated on big-endian IR',
                 text='Every obligation of C01, C02, C04, C06, C09 (and the VSS codec checks where registered) is discharged again on IR '
-                     'compiled for powerpc64 (thorough: also 32-bit mips); specs are expressed in wire octets and host values, so holding '
+                     'compiled for powerpc64 and - for C01/C02/C04/C06/C09 in the quick tier, for all in the thorough tier - 32-bit mips; specs are expressed in wire octets and host values, so holding '
                      'on both byte orders is the property.', ref='4.14',
                 note=TB + '; powerpc64/mips IR is taken as representative of big-endian hosts; libc headers are replaced by declarations in stubs/libc'),
     'C17': dict(cat='proof', tech='pairwise equality of measured closed forms across overlay families',
@@ -82,10 +82,10 @@ CHECKS = {
                      'A positive-control fixture must be flagged on every run.', ref='4.16', engine='rules',
                 note='trusted: clang-14 IR generation, irparse.py, rules.py, bpa.py for reader write sets; the argument from "no shared '
                      'mutable state" to "race-free in every schedule" is the standard one and is stated in DESIGN.md 4.16'),
-    'C20': dict(cat='proof', tech='compile-time witnesses: all ordered header pairs x {C99, C++17} with asserted facts',
-                text='Each of the 26 public headers compiles alone in C99 and C++17 and yields its facts (2044 enumerator/macro values, '
-                     'sizes, payload offsets, folded by the compiler); all 650 ordered pairs in both languages must compile with '
-                     '-Werror=macro-redefined and every fact of both headers asserted; all-header units in several orders may only fail '
+    'C20': dict(cat='proof', tech='compile-time witnesses: all ordered header pairs x {C99, gnu17, C++17} with asserted facts',
+                text='Each of the 26 public headers compiles alone in C99, gnu17 and C++17 and yields its facts (about 770 enumerator/macro values of the project itself, '
+                     'sizes, payload offsets, folded by the compiler); all 650 ordered pairs in the three dialects must compile with '
+                     '-Werror=macro-redefined -Werror=visibility and every fact of both headers asserted; all-header units in several orders may only fail '
                      'with pairwise conflicts. The Aaf.h/Pcm.h name clash is genuine and listed as known findings.', ref='4.20',
                 engine='witness',
                 note='trusted: clang-14 front end in -std=c99 and -std=c++17 modes; subsets larger than two are covered by the pairwise '
@@ -112,11 +112,11 @@ CHECKS = {
 
     'C18': dict(cat='other', tech='wire-taint dataflow over SSA IR of the six listener programs (necessary conditions only)',
                 text='PARTIAL. The property as a whole (no memory error, bounded time and liveness for every datagram sequence in programs '
-                     'doing socket and timer I/O) is out of reach of a sound static argument here. Decided clauses K1-K8: receive length <= '
+                     'doing socket and timer I/O) is out of reach of a sound static argument here. Decided clauses K1-K9: receive length <= '
                      'buffer size; constant-length copies stay inside their objects; a value read from the datagram (library getter on the '
                      'receive buffer, direct load, decoder out-parameter) is dominated by a bounding comparison before it is used as copy '
                      'length, object offset or VLA size; wire-stepped loops have a non-zero guard; no %s on receive-buffer bytes and no '
-                     'decoder result object with unset members; no access to an object at a point dominated by its free(); indexes and lengths derived from the receive count, and offsets fixed by control flow alone (accumulators over the receive loop), stay inside their objects. Breaking any clause breaks the property for some datagram; holding them does '
+                     'decoder result object with unset members; no access to an object at a point dominated by its free(); indexes and lengths derived from the receive count, and offsets fixed by control flow alone (accumulators over the receive loop), stay inside their objects; a global pointer to a heap object is updated by the function that frees the object. Breaking any clause breaks the property for some datagram; holding them does '
                      'not establish the property. The 11 flows that violate the clauses today are listed as known findings (each class '
                      'replayed under ASan, replays/c18); any new flow is a violation.', ref='4.18', engine='taint',
                 note='trusted: clang-14 -O0 + opt-14 mem2reg, irparse.py, taint.py (field-insensitive objects, context-insensitive '
@@ -130,6 +130,12 @@ CHECKS = {
                 note=TB + '; recv/write/clock_gettime/stdio are modelled in verif/checks/c19.py; argp_parse and the socket helpers are replaced by models; the listener main()/poll '
                      'loop is not analysed; input frames are assumed well-formed (standard frame: no identifier bit above 10)'),
 }
+
+IR_CHECKS = ('C01', 'C02', 'C03', 'C04', 'C05', 'C06', 'C07', 'C08', 'C09', 'C10', 'C11', 'C12', 'C15', 'C16', 'C17')
+CONFIGS = (' Build configurations: x86-64 (default flags of CMakeLists.txt), the -DNDEBUG configuration whenever its IR differs '
+           'from the default one, and i386 (little-endian ILP32). The functions analysed and their callees are also held '
+           'against what the public prototypes promise an optimising caller (const/pure/nonnull/aligned attributes vs. the '
+           'bodies, macros shadowing functions, argument-evaluation-order hazards: DESIGN.md 4.21).')
 
 PENDING = ['C05', 'C06', 'C07', 'C08', 'C09', 'C10', 'C12', 'C13', 'C14', 'C15', 'C16', 'C17', 'C18', 'C19', 'C20']
 
@@ -145,7 +151,8 @@ def main():
             'evidence_file': 'evidence/%s.json' % pid,
             'replay_cmd_template': './check %s --replay {path}' % pid,
             'engine': c.get('engine', 'bpa'),
-            'level_claimed': {'category': c['cat'], 'text': c['text'], 'design_ref': 'DESIGN.md section ' + c['ref']},
+            'level_claimed': {'category': c['cat'], 'text': c['text'] + (CONFIGS if pid in IR_CHECKS else ''),
+                              'design_ref': 'DESIGN.md section ' + c['ref']},
             'level_note': c.get('note', TB),
             'technique': c['tech'],
         })
